@@ -32,10 +32,6 @@ def run(ck):
     tdecl = pm.params[0]["decl"]
     en = F.enums.get("QtMsgType")
     fatal = {e["name"]: e["value"] for e in en["enumerators"]}["QtFatalMsg"]
-    runs = [n for n in pm.calls() if name_is(n.get("callee"), "process") and skip_copies(n.get("obj")).get("k") == "this"]
-    ck.require(len(runs) == 1, "processMessage runs the pipeline %d times" % len(runs))
-    flushes = [n for n in pm.calls() if name_is(n.get("callee"), (SPL + "::flush",)) and skip_copies(n.get("obj")).get("k") == "this"]
-
     def atom_for(t, own):
         def atom(n):
             if n.get("k") == "binop" and n.get("op") in ("==", "!=") and ((is_ref_to(n.get("lhs"), tdecl) and const_int(n.get("rhs")) is not None) or (is_ref_to(n.get("rhs"), tdecl) and const_int(n.get("lhs")) is not None)):
@@ -45,6 +41,17 @@ def run(ck):
                 return own
             return None
         return atom
+    runs = [n for n in pm.calls() if name_is(n.get("callee"), "process") and skip_copies(n.get("obj")).get("k") == "this"]
+    ck.require(len(runs) == 1, "processMessage runs the pipeline %d times" % len(runs))
+    flushes = [n for n in pm.calls() if name_is(n.get("callee"), (SPL + "::flush",)) and skip_copies(n.get("obj")).get("k") == "this"]
+    # the fatal message itself must be processed: in synchronous mode no path from entry to a return avoids the pipeline run
+    path_ok = {}
+    for t_name, t_val in sorted({e["name"]: e["value"] for e in en["enumerators"]}.items()):
+        path_ok[t_name] = g.must_pass({g.site_of(runs[0])}, keep=g.projector(atom_for(t_val, False)))
+    bad_t = sorted(k for k, v in path_ok.items() if not v)
+    ck.ob("C11-O1", sitestr(pm, runs[0]), not bad_t, "synchronous mode: every message type reaches the pipeline run on every path through processMessage (no early return, no give-up on a lock)" if not bad_t else
+          "processMessage can return without running the pipeline for %s: the message never reaches the sinks" % ", ".join(bad_t), key="Logger::processMessage|run-skipped")
+
     handled_in_entry = False
     if not flushes:
         # the flush may sit in the Qt-facing entry instead, right after the locked run (whether it is still under the lock is C02's business)
